@@ -41,6 +41,54 @@ pub fn cmd_layout(a: &[&str]) -> String {
     }
 }
 
+/// rewrite <g0> <as_s> <as_n> <va_s> <va_n> <bound> <drift> <reserved> <status>: a segment left at generation g0 by a previous
+/// writer whose record area is filled with 0xAA; a new real ShmWriter is created on it and writes the given record once; the
+/// fields found in the file afterwards, decoded at the compiler's offsets.
+pub fn cmd_rewrite(a: &[&str]) -> String {
+    let v: Vec<i64> = a.iter().map(|x| x.parse().unwrap_or(0)).collect();
+    if v.len() < 9 {
+        return "usage".into();
+    }
+    let path = tmp_path("rw");
+    let mut bytes = header_bytes(72, 1, v[0] as u16);
+    bytes.extend_from_slice(&[0xAAu8; 56]);
+    write_file(&path, &bytes);
+    let r = std::panic::catch_unwind(|| {
+        let mut w = ShmWriter::new(std::path::Path::new(&path)).expect("ShmWriter::new");
+        let ceb = ClockErrorBound::new(
+            libc::timespec { tv_sec: v[1], tv_nsec: v[2] },
+            libc::timespec { tv_sec: v[3], tv_nsec: v[4] },
+            v[5],
+            v[6] as u32,
+            v[7] as u32,
+            status_of(v[8]),
+        );
+        w.write(&ceb);
+    });
+    let after = std::fs::read(&path).unwrap_or_default();
+    let _ = std::fs::remove_file(&path);
+    if after.len() < 72 {
+        return format!("short len={}", after.len());
+    }
+    let i64at = |o: usize| i64::from_ne_bytes(after[o..o + 8].try_into().unwrap());
+    let u32at = |o: usize| u32::from_ne_bytes(after[o..o + 4].try_into().unwrap());
+    let fields = format!(
+        "{},{},{},{},{},{},{},{}",
+        i64at(16),
+        i64at(24),
+        i64at(32),
+        i64at(40),
+        i64at(48),
+        u32at(56),
+        u32at(60),
+        u32at(64)
+    );
+    match r {
+        Ok(()) => format!("ok gen={} fields={}", u16::from_ne_bytes([after[14], after[15]]), fields),
+        Err(p) => format!("panic {}", crate::panic_msg(&p)),
+    }
+}
+
 fn record_bytes(as_of: (i64, i64), va: (i64, i64), bound: i64, drift: u32, status: i32) -> Vec<u8> {
     let mut b = Vec::new();
     for x in [as_of.0, as_of.1, va.0, va.1, bound] {
@@ -140,4 +188,73 @@ pub fn cmd_abi(a: &[&str]) -> String {
         rust.unwrap_or_else(|p| format!("panic:{}", crate::panic_msg(&p))).replace(' ', "_"),
         c.unwrap_or_else(|p| format!("panic:{}", crate::panic_msg(&p))).replace(' ', "_")
     )
+}
+
+/// abi2 <oddgen|zerover|none>: both client libraries OPEN the same consistent segment first; then the segment is changed in
+/// place (generation made odd: an update in flight / version zeroed: a restarting daemon wiped it); then both call now().
+/// After the same calls on the same bytes the two libraries must give the same answer.
+pub fn cmd_abi2(a: &[&str]) -> String {
+    use std::io::{Seek, SeekFrom, Write};
+    let path = tmp_path("abi2");
+    let mut bytes = header_bytes(72, 1, 2);
+    bytes.extend_from_slice(&record_bytes((100, 0), (1100, 0), 5000, 1000, 1));
+    write_file(&path, &bytes);
+    let mode = a.get(0).copied().unwrap_or("none").to_string();
+    let (real, mono) = (1_700_000_000i128 * 1_000_000_000, 101i128 * 1_000_000_000);
+    let cpath = CString::new(path.clone()).unwrap();
+    let p2 = path.clone();
+    let r = std::panic::catch_unwind(move || unsafe {
+        let mut rc = match clock_bound_client::ClockBoundClient::new_with_path(&p2) {
+            Ok(c) => c,
+            Err(e) => return format!("rust=open_err:kind={} c=-", e.kind as i32 + 1),
+        };
+        let mut err = crate::ffi::clockbound_err::default();
+        let ctx = crate::ffi::clockbound_open(cpath.as_ptr(), &mut err);
+        if ctx.is_null() {
+            return format!("rust=- c=open_err:kind={}", err.kind as i32);
+        }
+        let mut f = std::fs::OpenOptions::new().write(true).open(&p2).expect("open for patch");
+        match mode.as_str() {
+            "oddgen" => {
+                f.seek(SeekFrom::Start(14)).unwrap();
+                f.write_all(&3u16.to_ne_bytes()).unwrap();
+            }
+            "zerover" => {
+                f.seek(SeekFrom::Start(12)).unwrap();
+                f.write_all(&[0u8; 4]).unwrap();
+            }
+            _ => {}
+        }
+        drop(f);
+        set_clock(real, mono);
+        let rust = match rc.now() {
+            Ok(r) => format!("now_ok:{}.{}:{}.{}:{}", r.earliest.tv_sec(), r.earliest.tv_nsec(), r.latest.tv_sec(), r.latest.tv_nsec(), r.clock_status as i32),
+            Err(e) => format!("now_err:kind={}:errno={}", e.kind as i32 + 1, e.errno.0),
+        };
+        clock_off();
+        set_clock(real, mono);
+        #[repr(C)]
+        struct CNowResult {
+            earliest: libc::timespec,
+            latest: libc::timespec,
+            clock_status: i32,
+        }
+        let mut res: std::mem::MaybeUninit<CNowResult> = std::mem::MaybeUninit::zeroed();
+        let e = crate::ffi::clockbound_now(ctx, res.as_mut_ptr() as *mut crate::ffi::clockbound_now_result);
+        let c = if e.is_null() {
+            let r = res.assume_init();
+            format!("now_ok:{}.{}:{}.{}:{}", r.earliest.tv_sec, r.earliest.tv_nsec, r.latest.tv_sec, r.latest.tv_nsec, r.clock_status as i32)
+        } else {
+            format!("now_err:kind={}:errno={}", std::ptr::read(&(*e).kind) as i32, (*e).errno)
+        };
+        clock_off();
+        crate::ffi::clockbound_close(ctx);
+        format!("rust={} c={}", rust, c)
+    });
+    clock_off();
+    let _ = std::fs::remove_file(&path);
+    match r {
+        Ok(s) => format!("ok {}", s),
+        Err(p) => format!("panic {}", crate::panic_msg(&p).replace(' ', "_")),
+    }
 }
